@@ -163,7 +163,7 @@ Qed.
 Lemma inq_step : forall c l c', step c l c' -> forall r, r_init r = true -> inq r c' -> inq r c \/ In r (issue c l).
 Proof.
   intros c l c' Hs. unfold step in Hs.
-  destruct l as [s0 t0 ch0|s0 t0 u0 ch0|s0 t0| |i ok|i ok|i|i s0|i|vis|i|s0|s0|s0]; simpl in Hs.
+  destruct l as [s0 t0 ch0|s0 t0 u0 ch0|s0 t0| |i ok|i ok|i|i s0|i|vis|i|s0|s0|s0|]; simpl in Hs.
   - destruct (s_term (c_sess c s0) || negb (s_inflight (c_sess c s0) =? 0)); [discriminate|].
     destruct (lookup t0 (s_subs (c_sess c s0))); inv_some; [inq_same|].
     intros r Hi H. unfold inq in *. simpl in *. destruct H as [H|H]; [|tauto].
@@ -241,6 +241,11 @@ Proof.
     intros r Hi H. left. unfold inq in *. simpl in *. destruct H as [H|[H|[H|[H|H]]]]; try tauto.
     rewrite map_app in H. apply in_app_or in H. destruct H as [H|H]; [tauto|].
     rewrite map_map in H. apply in_map_iff in H. destruct H as (x & <- & _). simpl in Hi. discriminate.
+  - (* HubUnregFail *)
+    destruct (c_hunreg c) as [|[tq|q] rest] eqn:E; try discriminate; simpl in Hs.
+    destruct (c_table c (r_topic q)) as [i|] eqn:Et.
+    + destruct (is_init (i_phase (c_inst c i))) eqn:Ei; [discriminate|]. inv_some; intros r Hi H; left; unfold inq in *; simpl in *; rewrite ?E; simpl; tauto.
+    + destruct (c_store c (r_topic q)) eqn:Est; [|discriminate]. inv_some; intros r Hi H; left; unfold inq in *; simpl in *; rewrite ?E; simpl; tauto.
 Qed.
 
 (* ---------- the eviction-notice exception and the silent steps ---------- *)
@@ -490,6 +495,23 @@ Proof.
       * apply (cons_answered _ _ _ q r (fun x => x) CNoAction); auto using g_id; first [apply Hq; reflexivity | sess_eq].
 Qed.
 
+Lemma cons_hubunregfail : forall c c' q, exec HubUnregFail c = Some c' -> dels_init c -> uniq q c -> conserves0 c HubUnregFail c' q.
+Proof.
+  intros c c' q Hs Hd U. simpl in Hs.
+  destruct (c_hunreg c) as [|[t|r] rest] eqn:E; try discriminate; simpl in Hs.
+  assert (Hu : hit (r_rid q) r = true -> r = q).
+  { apply U. right. right. right. right. rewrite E. left. reflexivity. }
+  assert (Hri : r_init r = true) by (apply Hd; rewrite E; left; reflexivity).
+  assert (Hq : forall c2, c_hjoin c2 = c_hjoin c -> c_inits c2 = c_inits c -> c_treg c2 = c_treg c -> c_tunreg c2 = c_tunreg c ->
+               c_hunreg c2 = rest -> queuedN (r_rid q) c2 + (if hit (r_rid q) r then 1 else 0) = queuedN (r_rid q) c).
+  { intros c2 E1 E2 E3 E4 E5. unfold queuedN. rewrite E1, E2, E3, E4, E5, E, cH_cons_del. lia. }
+  destruct (c_table c (r_topic r)) as [i|] eqn:Et.
+  + destruct (is_init (i_phase (c_inst c i))) eqn:El; [discriminate|]. inv_some.
+    apply (cons_answered _ _ _ q r (fun x => x) CInternal); auto using g_id; first [apply Hq; reflexivity | sess_eq].
+  + destruct (c_store c (r_topic r)); [|discriminate]. inv_some.
+    apply (cons_answered _ _ _ q r (fun x => x) CInternal); auto using g_id; first [apply Hq; reflexivity | sess_eq].
+Qed.
+
 Lemma ans_detach : forall n x t, ans n (s_detach x t) = ans n x.
 Proof. intros. unfold s_detach. destruct (s_term x); reflexivity. Qed.
 Lemma ans_notice : forall n x cd t, ans n (s_reply x (mkRep None cd t)) = ans n x.
@@ -682,7 +704,7 @@ Lemma conserves_step : forall c l c' q,
   step c l c' -> init_true c -> dels_init c -> uniq q c -> (r_rid q <> c_nextrid c \/ issue c l = []) -> conserves c l c' q.
 Proof.
   intros c l c' q Hs IT DI U Hn. unfold step in Hs.
-  destruct l as [s0 t0 ch0|s0 t0 u0 ch0|s0 t0| |i ok|i ok|i|i s0|i|vis|i|s0|s0|s0].
+  destruct l as [s0 t0 ch0|s0 t0 u0 ch0|s0 t0| |i ok|i ok|i|i s0|i|vis|i|s0|s0|s0|].
   - apply conserves0_conserves. eapply cons_client_sub; eauto. destruct Hn as [Hn|Hn]; [exact Hn|discriminate].
   - apply conserves0_conserves. eapply cons_client_leave; eauto. destruct Hn as [Hn|Hn]; [exact Hn|discriminate].
   - apply conserves0_conserves. eapply cons_client_del; eauto. destruct Hn as [Hn|Hn]; [exact Hn|discriminate].
@@ -707,6 +729,7 @@ Proof.
     unfold acct, queuedN. simpl. f_equal. sess_eq.
   - simpl in Hs. destruct (negb (s_term (c_sess c s0)) || s_done (c_sess c s0) || negb (s_inflight (c_sess c s0) =? 0)); inv_some.
     apply conserves0_conserves. apply cons_same. unfold acct, queuedN. simpl. rewrite cP_app, cP_all_internal by reflexivity. f_equal; [sess_eq|lia].
+  - apply conserves0_conserves. eapply cons_hubunregfail; eauto.
 Qed.
 
 (* ---------- the invariant over instrumented executions ---------- *)
@@ -776,7 +799,7 @@ Lemma nextrid_step : forall c l c', step c l c' ->
              s_term (c_sess c (r_sid q)) = false).
 Proof.
   intros c l c' Hs. unfold step in Hs.
-  destruct l as [s0 t0 ch0|s0 t0 u0 ch0|s0 t0| |i ok|i ok|i|i s0|i|vis|i|s0|s0|s0]; simpl in Hs;
+  destruct l as [s0 t0 ch0|s0 t0 u0 ch0|s0 t0| |i ok|i ok|i|i s0|i|vis|i|s0|s0|s0|]; simpl in Hs;
     try (left; split; [reflexivity|]; exec_split Hs; inv_some; reflexivity).
   - right. destruct (s_term (c_sess c s0)) eqn:Et; [discriminate|]. exec_split Hs; inv_some; eexists; simpl; repeat split; auto.
   - right. destruct (s_term (c_sess c s0)) eqn:Et; [discriminate|]. exec_split Hs; inv_some; eexists; simpl; repeat split; auto.
@@ -802,7 +825,7 @@ Proof.
   destruct (r_init r) eqn:Hri; auto. exfalso.
   (* a delete message in the hub's queue either was there or has just been issued by ClientDel *)
   unfold step in Hs.
-  destruct l as [s0 t0 ch0|s0 t0 u0 ch0|s0 t0| |i ok|i ok|i|i s0|i|vis|i|s0|s0|s0]; simpl in Hs.
+  destruct l as [s0 t0 ch0|s0 t0 u0 ch0|s0 t0| |i ok|i ok|i|i s0|i|vis|i|s0|s0|s0|]; simpl in Hs.
   - exec_split Hs; inv_some; simpl in Hin; apply H in Hin; congruence.
   - exec_split Hs; inv_some; simpl in Hin; apply H in Hin; congruence.
   - exec_split Hs; inv_some. simpl in Hin. apply in_app_or in Hin. destruct Hin as [Hin|[Hin|[]]]; [apply H in Hin; congruence|].
@@ -834,6 +857,11 @@ Proof.
   - exec_split Hs; inv_some; simpl in Hin; apply H in Hin; congruence.
   - exec_split Hs; inv_some; simpl in Hin; apply H in Hin; congruence.
   - exec_split Hs; inv_some; simpl in Hin; apply H in Hin; congruence.
+  - (* HubUnregFail *)
+    destruct (c_hunreg c) as [|[tq|q] rest] eqn:E; try discriminate; simpl in Hs.
+    destruct (c_table c (r_topic q)) as [i|] eqn:Et.
+    + destruct (is_init (i_phase (c_inst c i))) eqn:Ei; [discriminate|]. inv_some; simpl in Hin; assert (Y : In (HDel r) (c_hunreg c)) by (rewrite E; right; exact Hin); apply H in Y; congruence.
+    + destruct (c_store c (r_topic q)) eqn:Est; [|discriminate]. inv_some; simpl in Hin; assert (Y : In (HDel r) (c_hunreg c)) by (rewrite E; right; exact Hin); apply H in Y; congruence.
 Qed.
 
 Record inv_rep (c : config) (iss : list req) : Prop := mkIR {
@@ -872,7 +900,7 @@ Qed.
 Lemma new_acct : forall c l c' q, step c l c' -> fresh c -> issue c l = [q] -> acct q c' = 1.
 Proof.
   intros c l c' q Hs F Hi. unfold step in Hs.
-  destruct l as [s0 t0 ch0|s0 t0 u0 ch0|s0 t0| |i ok|i ok|i|i s0|i|vis|i|s0|s0|s0]; simpl in Hi; try discriminate; inversion Hi; subst q; clear Hi; simpl in Hs.
+  destruct l as [s0 t0 ch0|s0 t0 u0 ch0|s0 t0| |i ok|i ok|i|i s0|i|vis|i|s0|s0|s0|]; simpl in Hi; try discriminate; inversion Hi; subst q; clear Hi; simpl in Hs.
   - destruct (F s0 (c_nextrid c) (le_n _)) as [A Q]. unfold queuedN in Q.
     destruct (s_term (c_sess c s0)) eqn:Et; [discriminate|]. simpl in Hs.
     destruct (negb (s_inflight (c_sess c s0) =? 0)); [discriminate|].
@@ -977,7 +1005,7 @@ Qed.
 Lemma out_grows : forall c l c', step c l c' -> forall s p, In p (s_out (c_sess c s)) -> In p (s_out (c_sess c' s)).
 Proof.
   intros c l c' Hs s p Hin. unfold step in Hs.
-  destruct l as [s0 t0 ch0|s0 t0 u0 ch0|s0 t0| |i ok|i ok|i|i s0|i|vis|i|s0|s0|s0]; simpl in Hs.
+  destruct l as [s0 t0 ch0|s0 t0 u0 ch0|s0 t0| |i ok|i ok|i|i s0|i|vis|i|s0|s0|s0|]; simpl in Hs.
   - exec_split Hs; inv_some; out_tac.
   - exec_split Hs; inv_some; out_tac.
   - exec_split Hs; inv_some; out_tac.
@@ -1005,6 +1033,11 @@ Proof.
   - exec_split Hs; inv_some; out_tac.
   - exec_split Hs; inv_some; out_tac.
   - exec_split Hs; inv_some; out_tac.
+  - (* HubUnregFail *)
+    destruct (c_hunreg c) as [|[tq|q] rest] eqn:E; try discriminate; simpl in Hs.
+    destruct (c_table c (r_topic q)) as [i|] eqn:Et.
+    + destruct (is_init (i_phase (c_inst c i))) eqn:Ei; [discriminate|]. inv_some; out_tac.
+    + destruct (c_store c (r_topic q)) eqn:Est; [|discriminate]. inv_some; out_tac.
 Qed.
 
 Lemma noticed_mono : forall c l c' q, step c l c' -> noticed q c = true -> noticed q c' = true.
